@@ -247,45 +247,62 @@ func runSolver(name string, file string, timeoutS int) SolverResult {
 	return SolverResult{Status: st, Solver: name, Out: s, Secs: secs}
 }
 
-// solve tries the lite query (heap-closedness axioms dropped: fewer hypotheses, so an unsat answer is still valid)
-// and the full query on z3-new, then the other solvers. A sat answer only counts on the full query.
-func solve(lite, full string, timeoutS int, thorough bool, expectSat bool) (SolverResult, []SolverResult) {
+// solveOb discharges one obligation with a portfolio of query variants, each sound (hypotheses are only dropped):
+//
+//	ground: contract-level quantified hypotheses replaced by their instances at candidate terms, relevance-filtered
+//	lite:   heap-closedness and quantified frame axioms dropped (their ground instances stay)
+//	full:   everything
+//
+// A sat answer counts only on the full query; a sat answer on the lite query is reported as "sat-lite".
+func solveOb(o *Obligation, qdir string, timeoutS int, thorough bool, expectSat bool) (SolverResult, []SolverResult, string) {
 	var all []SolverResult
+	base := o.Func + "__" + o.Name
 	if expectSat {
+		full := writeQuery(qdir, base, o.BuildQuery(false, false))
 		r := runSolver("z3-new", full, timeoutS)
 		all = append(all, r)
-		return r, all
+		return r, all, full
 	}
+	ground := writeQuery(qdir, base+".ground", o.BuildQueryS(false, true, true, true))
+	g := runSolver("z3-new", ground, timeoutS)
+	g.Solver = "z3-new(ground)"
+	all = append(all, g)
+	if g.Status == "unsat" && !thorough {
+		return g, all, ground
+	}
+	lite := writeQuery(qdir, base+".lite", o.BuildQuery(false, true))
 	r := runSolver("z3-new", lite, timeoutS)
 	r.Solver = "z3-new(lite)"
 	all = append(all, r)
 	if r.Status == "unsat" && !thorough {
-		return r, all
+		return r, all, lite
 	}
 	best := r
+	if g.Status == "unsat" {
+		best = g
+	}
 	liteSat := r.Status == "sat"
-	if r.Status != "unsat" {
+	full := writeQuery(qdir, base, o.BuildQuery(false, false))
+	if best.Status != "unsat" {
 		r2 := runSolver("z3-new", full, timeoutS)
 		all = append(all, r2)
 		best = r2
 		if (r2.Status == "unsat" || r2.Status == "sat") && !thorough {
-			return r2, all
+			return r2, all, full
 		}
 		if liteSat && !thorough {
-			// the full query is undecided but the query without the quantified heap axioms has a model:
-			// reported as refuted-on-the-lite-query; the model is only a candidate until replayed
 			best.Status = "sat-lite"
 			best.Solver = "z3-new(lite)"
-			return best, all
+			return best, all, lite
 		}
 	}
 	type job struct{ solver, file, tag string }
-	jobs := []job{{"z3", lite, "z3(lite)"}, {"cvc5", lite, "cvc5(lite)"}, {"z3", full, "z3"}, {"cvc5", full, "cvc5"}}
+	jobs := []job{{"z3", ground, "z3(ground)"}, {"cvc5", ground, "cvc5(ground)"}, {"z3", lite, "z3(lite)"}, {"cvc5", lite, "cvc5(lite)"}, {"z3", full, "z3"}, {"cvc5", full, "cvc5"}}
 	ch := make(chan SolverResult, len(jobs))
 	for _, j := range jobs {
 		go func(j job) {
 			x := runSolver(j.solver, j.file, timeoutS)
-			if strings.HasSuffix(j.tag, "(lite)") && x.Status == "sat" {
+			if strings.HasSuffix(j.tag, ")") && x.Status == "sat" {
 				x.Status = "unknown"
 			}
 			x.Solver = j.tag
@@ -302,14 +319,21 @@ func solve(lite, full string, timeoutS int, thorough bool, expectSat bool) (Solv
 			best = x
 		}
 	}
-	if best.Solver == "z3-new(lite)" && best.Status == "sat" {
-		best.Status = "sat-lite"
-	}
+	file := full
 	if liteSat && best.Status != "unsat" && best.Status != "sat" {
 		best.Status = "sat-lite"
 		best.Solver = "z3-new(lite)"
+		file = lite
 	}
-	return best, all
+	return best, all, file
+}
+
+func queryPath(dir, name string) string {
+	safe := strings.NewReplacer("/", "_", " ", "_", "*", "p", "(", "", ")", "", ":", "_", "[", "_", "]", "_", "|", "_", "<", "lt", ">", "gt", "&", "a", "\"", "", "'", "", ",", "_", "!", "n", "=", "e", "{", "", "}", "", "#", "h").Replace(name)
+	if len(safe) > 180 {
+		safe = safe[:180]
+	}
+	return filepath.Join(dir, safe+".smt2")
 }
 
 func writeQuery(dir, name string, body string) string {
